@@ -135,6 +135,10 @@ def run(F, rep, tier):
             recv, arg = args
             sr, sa = root_side(recv), root_side(arg)
             cr, ca = component(recv), component(arg)
+            if sr is None or sa is None:
+                # an operand whose origin the provenance engine cannot name (a closure of an adaptor it does not model, a value built on the way): no positive evidence
+                rep.undecided(r2, "%s:%s:line%s" % (nm, callee.split("::")[-1], "?"), "the operands of a recursive call in %s cannot be traced to `self` / `other`" % nm)
+                continue
             if cr is None and ca is None:
                 # the top-level call is_conformant -> self.is_equivalent(other)
                 if sr == "self" and sa == "other":
@@ -336,12 +340,26 @@ def arity_rule(F, rep, fns, helper):
         fl = hirflow.Flow(h, inline=helper)
         verdicts = []
         for d, cond, line in list(fl.returns) + [(d2, c2, l2) for d2, c2, l2, _ in fl.helper_returns]:
-            if d != ("lit", True):
+            if d is None or d == ("lit", False):
                 continue
+            if d != ("lit", True) and not (isinstance(d, tuple) and d and d[0] in ("bin", "call", "match", "un")):
+                continue                      # neither `true` nor a boolean expression that may be true
             kinds = [c for cd in cond for c in cd[1] if isinstance(c, str) and c.startswith(T + "::") and cd[2] is True]
             if sum(1 for c in kinds if c.endswith("::Function")) < 2:
                 continue
-            ok = False
+
+            def len_cmp(t):
+                """a conjunct `len(parameters of one side) == len(parameters of the other)` inside a returned boolean expression"""
+                if not (isinstance(t, tuple) and t):
+                    return False
+                if t[0] == "bin" and t[1] == "==" and len(t) >= 4:
+                    a, b = repr(t[2]), repr(t[3])
+                    if "len" in a and "len" in b and (("('arg', 0)" in a and "('arg', 1)" in b) or ("('arg', 1)" in a and "('arg', 0)" in b)):
+                        return True
+                if t[0] == "bin" and t[1] == "&&":
+                    return any(len_cmp(x) for x in t[2:])
+                return False
+            ok = d != ("lit", True) and len_cmp(d)
             for cd in cond:
                 t = cd[0]
                 if isinstance(t, tuple) and t and t[0] == "bin" and t[1] in ("==", "!=") and cd[2] == (t[1] == "=="):
